@@ -499,6 +499,18 @@ func MonC12() *Mon {
 					n.W.Fail("C12", fmt.Sprintf("node %d height %d view %d: the completed block of proposal %s is acceptable to the application, yet the node asked for a view change with reason TxInvalid", n.ID, o.h, o.v, o.prop), "changeview-for-acceptable-block")
 				}
 			}
+			// ... and the converse: a prepare response for a completed block the application rejects for sure
+			if responded {
+				bad := n.RejectBlocks || n.RejectHeights[o.h]
+				for _, th := range o.hashes {
+					if tx, ok := n.W.TxByHash(th); ok && tx.Poisoned() {
+						bad = true
+					}
+				}
+				if bad {
+					n.W.Fail("C12", fmt.Sprintf("node %d height %d view %d: the completed block of proposal %s is rejected by the application's verification, yet the node answered with a PrepareResponse", n.ID, o.h, o.v, o.prop), "response-for-unacceptable-block")
+				}
+			}
 			if len(o.asked) >= 2 && o.other > 0 {
 				n.W.Stat("c12_nontrivial")
 			}
@@ -526,7 +538,11 @@ func hashList(hs []vt.H) []byte {
 // ---- C13 watch-only nodes are silent -------------------------------------------------
 
 func MonC13() *Mon {
-	isWatch := func(n *Node) bool { return n.D.Validators != nil && n.D.Context.WatchOnly() }
+	// by the harness' own knowledge (the flag its callback serves right now, its identity's place in the list of the
+	// height), not by what the library's context says about itself
+	isWatch := func(n *Node) bool {
+		return n.D.Validators != nil && (n.WatchFlag || n.IndexAt(n.D.BlockIndex) < 0)
+	}
 	return &Mon{Name: "C13",
 		Broadcast: func(n *Node, p Payload) {
 			if isWatch(n) {
